@@ -5,7 +5,24 @@ REAL_STREAM = ["zio/* readers and writers", "zngio scanner/parser/workers", "zco
 STUB_STREAM = ["output sinks and input readers (simulator-owned io.Reader/io.WriteCloser/storage.Engine)",
                "goroutine choice at hook points (seeded scheduler)", "clock (synctest bubble)"]
 
+REAL_LAKE = ["lake (root, pools, branches, commits, journal, data, writer)", "runtime/exec (compact, delete)", "compiler + optimizer + kernel",
+             "runtime/sam operators incl. meta lister/slicer/deleter", "zngio", "vcache/vam where the planner vectorises"]
+STUB_LAKE = ["storage.Engine = simdisk (in-memory; objstore model with atomic put and put-if-absent, or file model with visible partial writes and create-then-fill put-if-absent)",
+             "clock (synctest bubble)", "KSUID randomness (seeded)", "goroutine choice at storage/hook points (seeded scheduler)"]
+
 PROPS = {
+    "C14": dict(
+        engine="lakesim", level="exploration",
+        budget_s=dict(quick=60, thorough=1500),
+        rule=("one run = one seeded sequential history (<=14 ops over load/delete/delete-where/compact/vector add+del/vacuum) on one pool with drawn key path, "
+              "order, object threshold, seek stride, key-type mix, parallelism and storage model; after every op the state is read cold and compared with the model. "
+              "Non-trivial = at least one op ran and (a non-default knob or >2 ops); distinct = distinct hash of all draws."),
+        real=REAL_LAKE, stub=STUB_LAKE,
+        assumptions=["fault-free and uncontended: one client, no crash, no I/O error (faulty configurations are C12/C17)",
+                     "cross-type key order is only checked for consistency (repeatable scans), same-type and null/missing order are checked against the harness's own comparison",
+                     "predicate truth for delete-where comes from the repository's expression evaluator on in-memory values (no lake, no pruner)",
+                     "the exhaustive-short-histories half of the quantifier is enumeration, not simulation, and is not claimed"],
+    ),
     "C18": dict(
         engine="streamsim", level="fault_enumeration",
         budget_s=dict(quick=40, thorough=1500),
